@@ -78,6 +78,28 @@ class C06(Prop):
                 req2 = nhi + 1
             cases.append({"kind": "session", "tbl": tbl, "idx": idx, "triple": [v, lo, hi],
                           "calls": [[req1, retries, evs], [req2, 1, []]]})
+        # the triple reaches the parameter the way it does in use: decoded from an ecoMAX-parameters response frame by a real device
+        # (inverted and degenerate ranges included), then set() is called on the parameter the device created
+        eco = [(tbl, idx) for tbl, idx in plain if tbl in (0, 1)]
+        for _ in range(80 if tier == "quick" else 1500):
+            tbl, idx = rng.choice(eco)
+            shape = rng.choice(["inverted", "inverted", "point", "mid", "full"])
+            if shape == "inverted":
+                hi_, lo_ = sorted(rng.sample(range(0, 255), 2))
+                tr = [rng.randrange(255), lo_, hi_]            # min > max
+            elif shape == "point":
+                v = rng.randrange(255)
+                tr = [v, v, v]
+            elif shape == "mid":
+                lo_ = rng.randrange(0, 200)
+                tr = [rng.randrange(lo_, lo_ + 41), lo_, lo_ + 40]
+            else:
+                tr = [rng.randrange(255), 0, 254]
+            if tr == [255, 255, 255]:
+                tr = [1, 255, 255]
+            req = rng.choice([tr[1], tr[2], (tr[1] + tr[2]) // 2, tr[1] - 1 if tr[1] > 0 else tr[2] + 1, tr[2] + 1, rng.randrange(255)])
+            cases.append({"kind": "frames:" + shape, "tbl": tbl, "idx": idx, "triple": tr, "vkind": "int", "raw_hint": req, "mult": 1.0,
+                          "offset": 0, "b0": rng.randrange(256)})
         # overlapping calls: while an in-range call is pending (between its retransmissions), further set() calls with values
         # outside the range arrive on the same parameter: each must raise, transmit nothing, and leave the pending call's
         # retransmissions carrying the value that was accepted
@@ -113,6 +135,11 @@ class C06(Prop):
     def run_impl(self, c):
         if c["kind"] == "overlap":
             return vloop.run(param_impl.run_overlap, c["tbl"], c["idx"], c["triple"], c["req"], c["retries"], c["events"])
+        if c["kind"].startswith("frames:"):
+            payload = list(model.call("enc_ecomax_params", [c["b0"], c["idx"], [[c["triple"]]]]))
+            outs, after, _ = vloop.run(param_impl.run_set_call_frames, c["tbl"], c["idx"], c["triple"], self._pyvalue(c), 2, 5.0, [],
+                                       False, [payload])
+            return [outs, after]
         if c["kind"] == "session":
             return vloop.run(param_impl.run_session, c["tbl"], c["idx"], c["triple"], c["calls"], False)
         outs, after, after_call = vloop.run(param_impl.run_set_call, c["tbl"], c["idx"], c["triple"], self._pyvalue(c), 2, 5.0, [],
